@@ -223,12 +223,24 @@ def native_replay(program, nslots=3, nbufs=3, sanitize=True, tag='replay'):
             else:
                 vals = [float(x) for x in w[9:]]
                 cur['slots'][k] = {'dim': int(w[3]), 'size': int(w[5]), 'ext': int(w[7]), 'vals': vals}
-        elif ln.startswith('  buf ') and cur is not None:
+        elif ln.startswith('  raw ') and cur is not None and len(w) >= 12:
+            cur.setdefault('raw', {})[int(w[1])] = {'dim': int(w[3]), 'size': int(w[5]), 'isinit': int(w[7]), 'isinit_d': int(w[9]), 'comp': int(w[11])}
+        elif ln.startswith('  buf ') and cur is not None and len(w) >= 3:
             cur['bufs'][int(w[1])] = [float(x) for x in w[3:]]
     report = None
+    # representation invariants on the native objects (same three as the symbolic check_state)
+    inv = None
+    for n_, st_ in enumerate(steps):
+        for k_, r_ in (st_.get('raw') or {}).items():
+            if r_['isinit'] and r_['isinit_d']:
+                inv = inv or 'step %d: slot %d is flagged both as owning its storage and as bound to user storage' % (n_, k_)
+            elif r_['size'] != r_['dim'] * r_['dim']:
+                inv = inv or 'step %d: slot %d has dimension %d but size %d' % (n_, k_, r_['dim'], r_['size'])
+            elif not r_['isinit'] and not r_['isinit_d'] and r_['size'] != 0:
+                inv = inv or 'step %d: slot %d neither owns nor borrows storage but has size %d' % (n_, k_, r_['size'])
     if p.returncode != 0 or 'ERROR: AddressSanitizer' in p.stderr or 'runtime error' in p.stderr or 'LeakSanitizer' in p.stderr:
         report = p.stderr[-1500:]
-    return {'steps': steps, 'exit': p.returncode, 'report': report, 'finished': 'done' in p.stdout}
+    return {'steps': steps, 'exit': p.returncode, 'report': report, 'finished': 'done' in p.stdout, 'invariant': inv}
 
 
 def pool_interp_vs_native(chk, programs, nslots=5, nbufs=3):
